@@ -88,9 +88,9 @@ void vh_ps(vh_ev_t *e, const char *k, const char *s);       /* string param */
 void vh_opnd(vh_ev_t *e, const char *nm, char role, mzd_t *M);
 void vh_pre(vh_ev_t *e);
 /* run the call: if (VH_CALL(e)) { ...library call... } VH_END(e) */
-#define VH_CALL(e) (CTX->armed = 1, CTX->died = 0, CTX->live0 = vh_live_blocks, vh_lib_enter(), sigsetjmp(CTX->jb, 1) == 0)
+#define VH_CALL(e) (CTX->armed = 1, CTX->died = 0, CTX->live0 = __atomic_load_n(&vh_live_blocks, __ATOMIC_RELAXED), vh_lib_enter(), sigsetjmp(CTX->jb, 1) == 0)
 #define VH_END(e) do { vh_lib_leave(); CTX->armed = 0; (e)->die = CTX->died; \
-  (e)->dlive = vh_live_blocks - CTX->live0; \
+  (e)->dlive = __atomic_load_n(&vh_live_blocks, __ATOMIC_RELAXED) - CTX->live0; \
   if (CTX->died) strncpy((e)->diemsg, CTX->diemsg, sizeof((e)->diemsg) - 1); } while (0)
 void vh_result(vh_ev_t *e, const char *nm, mzd_t *R); /* returned matrix: adopt if new */
 void vh_post(vh_ev_t *e);
